@@ -22,6 +22,7 @@ import (
 	"io"
 	"io/ioutil"
 	stdlog "log"
+	"math/big"
 	"net"
 	"os"
 	"path/filepath"
@@ -395,6 +396,54 @@ func c09Run(t *testing.T, cs c09Case) c09Obs {
 	return obs
 }
 
+// c09Table: for one legacy digit pair and ALL 65536 values of header bytes 4-5, what serve() does with
+// the 8-byte stream: bit set in Legacy = exactly the fixed legacy answer was written, connection
+// closed, nothing delivered; bit set in Silent = nothing written, connection closed, nothing delivered.
+type c09TableIn struct {
+	A  int `json:"a"`
+	B  int `json:"b"`
+	P6 int `json:"p6"`
+	P7 int `json:"p7"`
+}
+
+type c09TableOut struct {
+	Table  int    `json:"table"`
+	Legacy string `json:"legacy"`
+	Silent string `json:"silent"`
+	// set when the run was stopped because handling 8-byte headers allocated more than 64 MiB
+	// per 256 headers (every one of them announces >= 512 MiB): Done = headers handled so far
+	Aborted bool `json:"aborted"`
+	Done    int  `json:"done"`
+}
+
+func c09RunTable(idx int, ti c09TableIn) c09TableOut {
+	legacy, silent := new(big.Int), new(big.Int)
+	answer := []byte{'5', ' ', '0', ' ', '0', '\n', 0, 0, 0, 0}
+	var m0, m1 runtime.MemStats
+	runtime.ReadMemStats(&m0)
+	for w := 0; w < 65536; w++ {
+		if w%256 == 255 {
+			runtime.ReadMemStats(&m1)
+			if m1.TotalAlloc-m0.TotalAlloc > 64<<20 {
+				return c09TableOut{Table: idx, Legacy: legacy.Text(16), Silent: silent.Text(16), Aborted: true, Done: w}
+			}
+			m0 = m1
+		}
+		h := &c09Handler{mode: 2}
+		hdr := []byte{byte(ti.A), ' ', byte(ti.B), ' ', byte(w & 0xff), byte(w >> 8), byte(ti.P6), byte(ti.P7)}
+		c := &c09ChunkConn{chunks: [][]byte{hdr}}
+		serve(c, h)
+		if len(h.got) == 0 && c.closed {
+			if bytes.Equal(c.written.Bytes(), answer) {
+				legacy.SetBit(legacy, w, 1)
+			} else if c.written.Len() == 0 {
+				silent.SetBit(silent, w, 1)
+			}
+		}
+	}
+	return c09TableOut{Table: idx, Legacy: legacy.Text(16), Silent: silent.Text(16), Done: 65536}
+}
+
 func TestVerifC09(t *testing.T) {
 	inPath, outPath := os.Getenv("VERIF_IN"), os.Getenv("VERIF_OUT")
 	if inPath == "" {
@@ -406,7 +455,8 @@ func TestVerifC09(t *testing.T) {
 		t.Fatal(err)
 	}
 	var in struct {
-		Cases []c09Case `json:"cases"`
+		Cases  []c09Case    `json:"cases"`
+		Tables []c09TableIn `json:"tables"`
 	}
 	if err := json.Unmarshal(raw, &in); err != nil {
 		t.Fatal(err)
@@ -420,6 +470,10 @@ func TestVerifC09(t *testing.T) {
 	for _, cs := range in.Cases {
 		obs := c09Run(t, cs)
 		b, _ := json.Marshal(obs)
+		f.Write(append(b, '\n'))
+	}
+	for i, ti := range in.Tables {
+		b, _ := json.Marshal(c09RunTable(i, ti))
 		f.Write(append(b, '\n'))
 	}
 	if c09Listener != nil {
